@@ -8,6 +8,7 @@ ROOT = os.path.dirname(os.path.dirname(os.path.abspath(__file__)))
 TRANSLATORS = [
     ('tables', './build/gentables /repo/parse.go work/Tables.v.new && (cmp -s work/Tables.v.new coq/Generated/Tables.v || cp work/Tables.v.new coq/Generated/Tables.v)', None),
     ('effects', './build/geneffects /repo work/Effects.v.new work/Effects_ok.v.new > work/geneffects.log && (cmp -s work/Effects.v.new coq/Generated/Effects.v || cp work/Effects.v.new coq/Generated/Effects.v)', ['C05', 'C04']),
+    ('callgraph', './build/gencallgraph /repo work/CallGraph.v.new > work/gencallgraph.log && (cmp -s work/CallGraph.v.new coq/Generated/CallGraph.v || cp work/CallGraph.v.new coq/Generated/CallGraph.v)', ['C06']),
 ]
 
 # axioms of the standard library that a theorem may depend on (none is needed so far)
